@@ -270,6 +270,15 @@ class TTGen:
             v = self.int_expr(0)
             left = call('o1', v)
             right = bin_('+', bin_('*', v, I(2)), I(r.choice((1, 1, 0))))
+        c = r.random()
+        if c < 0.2:
+            # a compile-time constant on the left: the right side must still be evaluated
+            k = r.choice((0, 1, 3, 7))
+            left = I(k)
+            right = call(r.choice(('o1', 'o2')), I(r.choice((k, (k - 1) // 2 if k % 2 else k, 1, 3))))
+        elif c < 0.28:
+            left = bin_('+', I(r.choice((1, 2))), I(r.choice((1, 2))))
+            right = call('o1', self.int_expr(0))
         e = ('spec', left, right)
         if self.ints and r.random() < 0.6:
             return [setv(r.choice(self.ints), e), write(V('g0')), write(C(' '))]
